@@ -22,6 +22,10 @@ type Subscription struct {
 
 	// typ is the type of the events, the type of the subscription field.
 	typ Type
+
+	// vars are the variables of the request that made the subscription, the
+	// selection set applied to the events can use them.
+	vars map[string]interface{}
 }
 
 // NewSubscription creates a new subscription. It should be called in a
